@@ -94,7 +94,7 @@ def make_scratch(variant, keep=False):
 def inject(crate, hdir, variant):
     lib = os.path.join(crate, "src", "lib.rs")
     s = open(lib).read()
-    s = "#![cfg_attr(kani, recursion_limit = \"1024\")]\n#![cfg_attr(kani, allow(unused, dead_code))]\n" + s
+    s = "#![cfg_attr(kani, recursion_limit = \"1024\")]\n#![cfg_attr(kani, allow(unused, dead_code))]\n#![cfg_attr(kani, feature(core_io_borrowed_buf, read_buf))]\n" + s
     s += "\n#[cfg(kani)]\n#[path = \"%s\"]\n#[macro_use]\npub mod verif_common;\n" % os.path.join(hdir, "common.rs")
     if variant == "mapsub":
         s += "\n#[cfg(kani)]\n#[path = \"%s\"]\npub mod verif_map;\n" % os.path.join(hdir, "verif_map.rs")
